@@ -260,7 +260,8 @@ type TaskMaster struct {
 	tasks map[string]*ExecutingTask
 
 	// DeleteHooks for tasks
-	deleteHooks map[string][]deleteHook
+	deleteHooks   map[string][]deleteHook
+	deleteHooksMu sync.Mutex
 
 	diag Diagnostic
 
@@ -627,15 +628,19 @@ func (tm *TaskMaster) stopTask(id string) (err error) {
 // internal deleteTask function. The caller must have acquired
 // the lock in order to call this function
 func (tm *TaskMaster) deleteTask(id string) {
+	tm.deleteHooksMu.Lock()
 	hooks := tm.deleteHooks[id]
+	tm.deleteHooksMu.Unlock()
 	for _, deleteHook := range hooks {
 		deleteHook(tm)
 	}
 }
 
+// registerDeleteHookForTask is called by node goroutines while they start.
+// It must not take tm.mu: stopTask holds tm.mu while it waits for the nodes of the task to finish.
 func (tm *TaskMaster) registerDeleteHookForTask(id string, hook deleteHook) {
-	tm.mu.Lock()
-	defer tm.mu.Unlock()
+	tm.deleteHooksMu.Lock()
+	defer tm.deleteHooksMu.Unlock()
 	tm.deleteHooks[id] = append(tm.deleteHooks[id], hook)
 }
 
